@@ -860,3 +860,50 @@ Theorem C02_rc_same_centre_labels : forall g g' : its, gedges g' = gedges g -> (
   get_rc g' = get_rc g.
 Proof. exact rc_same_centre_labels. Qed.
 Print Assumptions C02_rc_same_centre_labels.
+
+(** 48. The property text as ONE statement: theorems 1-6 (and 24) assembled for an ITS graph whose standard_order is the order
+        difference.  (For the other option settings, label shapes, wrappers and helpers see theorems 7-47.) *)
+Theorem C02_property_statement : forall g : its, wf g -> std_consistent g ->
+  (* a bond is in the centre iff its order differs between the two sides, H-H bonds additionally always *)
+  (forall u v e, adj (get_rc g) u v = Some e <->
+                 adj g u v = Some e /\ (e_G e <> e_H e \/ (is_h g u = true /\ is_h g v = true))) /\
+  (* exactly the atoms incident to those bonds, with their ITS labels *)
+  (forall n b, label (get_rc g) n = Some b <->
+               (exists a, label g n = Some a /\ b = rc_attr a) /\ (exists v e, adj (get_rc g) n v = Some e)) /\
+  (* the centre of the centre *)
+  geq (get_rc (get_rc g)) (get_rc g) /\
+  (* renumbering *)
+  (forall f : N -> N, (forall a b, f a = f b -> a = b) ->
+     get_rc (relabel f g) = relabel f (get_rc g) /\ forall k, extract_k (relabel f g) k = relabel f (extract_k g k)) /\
+  (* the radius-k context is exactly the atoms within k bonds of the centre (induced subgraph) *)
+  (forall k, (1 <= k)%nat ->
+     (forall n, In n (node_ids (extract_k g k)) <-> dist_le g (node_ids (get_rc g)) k n) /\
+     (forall n a, label (extract_k g k) n = Some a <-> label g n = Some a /\ dist_le g (node_ids (get_rc g)) k n) /\
+     (forall u v e, adj (extract_k g k) u v = Some e <->
+                    adj g u v = Some e /\ dist_le g (node_ids (get_rc g)) k u /\ dist_le g (node_ids (get_rc g)) k v)) /\
+  (* centre = context(0) within context(1) within context(2) ... within the ITS *)
+  (forall k k', (k <= k')%nat ->
+     extract_k g 0 = get_rc g /\
+     (forall n, In n (node_ids (extract_k g k)) -> In n (node_ids (extract_k g k'))) /\
+     (forall u v e, adj (extract_k g k) u v = Some e -> adj (extract_k g k') u v = Some e) /\
+     (forall n, In n (node_ids (extract_k g k')) -> In n (node_ids g)) /\
+     (forall u v e, adj (extract_k g k') u v = Some e -> adj g u v = Some e)).
+Proof. exact property_statement. Qed.
+Print Assumptions C02_property_statement.
+
+(** 49. Theorem 47 for every element_key / keep_mtg (disconnected = False) and for every label shape: the centre depends only on the
+        atoms and on the sub-list of relevant bonds (included, or between two hydrogens).  Under disconnected = True a spectator bond
+        between two centre atoms IS re-added by _reconnect_rc_edges (witness in proof/C02_Spectator.v). *)
+Theorem C02_rcx_same_relevant : forall K m (g g' : xits), gnodes g' = gnodes g ->
+  filter (fun e : N * N * xedge => include_x m (snd e) || is_hh_x g (fst (fst e)) (snd (fst e))) (gedges g') =
+  filter (fun e : N * N * xedge => include_x m (snd e) || is_hh_x g (fst (fst e)) (snd (fst e))) (gedges g) ->
+  get_rc_x K false m g' = get_rc_x K false m g.
+Proof. exact rcx_same_relevant. Qed.
+Print Assumptions C02_rcx_same_relevant.
+
+Theorem C02_rcS_same_relevant : forall K m (g g' : sits), gnodes g' = gnodes g ->
+  filter (fun e : N * N * xedge => include_x m (snd e) || is_hh_g ish_S g (fst (fst e)) (snd (fst e))) (gedges g') =
+  filter (fun e : N * N * xedge => include_x m (snd e) || is_hh_g ish_S g (fst (fst e)) (snd (fst e))) (gedges g) ->
+  get_rc_S K false m g' = get_rc_S K false m g.
+Proof. exact rcS_same_relevant. Qed.
+Print Assumptions C02_rcS_same_relevant.
